@@ -25,6 +25,33 @@ CLAIMS = {
              "_activate_inbound installs. All paths, not sampled tamperings.",
         technique="flag-specialised CFG dominance, value-origin (reaching definitions), comparator shape check",
         note="MAC/AEAD unforgeability is a cryptographic assumption"),
+    "C04": dict(
+        text="Structural decision against the RFC (not against the peer): the hash-input layout of "
+             "Transport._compute_key (first block and extension blocks, accumulation, truncation), the 12 "
+             "letter cells role x direction x {iv,key,mac} extracted by value-origin from _activate_*, "
+             "client/server symmetry and in/out separation computed from that table, and the requested "
+             "lengths. A symmetric-but-wrong derivation (which peer-to-peer tests cannot see) is a mismatch "
+             "with the RFC template.",
+        technique="wire-layout extraction in evaluation order + role-specialised reaching definitions, compared with an RFC 4253 7.2 template",
+        note="numeric equality with an independent implementation is not decided"),
+    "C05": dict(
+        text="Structural decision for all 8 categories x 2 roles: which list the first-common-element "
+             "selection iterates (must be the client's) and which it tests membership in (the server's), "
+             "the KEXINIT direction field used, that the local operand is a disabled-filtered preferred_* "
+             "property (server host keys also intersected with held keys), IncompatiblePeer exactly on "
+             "empty agreement, pseudo-algorithm stripping, and KEXINIT writer/reader field order. Holds for "
+             "all list contents because the rule is about which list is iterated.",
+        technique="idiom-recognising selection matrix over role-pruned CFG + reaching definitions + layout extraction",
+        note="filter/list-comprehension order semantics of Python trusted"),
+    "C06": dict(
+        text="Structural decision for every non-GSS engine in _kex_info x both roles: exchange-hash layout "
+             "field by field (kind and source; peer values identified by their read position in the "
+             "incoming message) against RFC 4253 s8 / 4419 s3 / 5656 s4; client order set_K_H < verify_key "
+             "< activate_outbound; fail-closed _verify_key; all reply fields bound; session-id latch "
+             "(who-may-write); server signs H with the negotiated algorithm and sends what it hashed; "
+             "name<->hash/curve/group tables; handshake typestate.",
+        technique="wire-layout extraction + value-origin classification into RFC slots, CFG dominance, who-may-write over the whole package",
+        note="equality of the peers' big-integer secrets (DH algebra, library) not decided"),
     "C03": dict(
         text="Exact decision over a finite abstract domain: the framing arithmetic "
              "of Packetizer._build_packet is interpreted from the current AST for every "
